@@ -36,6 +36,7 @@ TTagSep == /\ IsEv("tagsep")
 TCid == IsEv("cid") /\ r.changed = r.expect_changed
 (* hostile channel-id text: a value or an error, never a panic (a padding-free spelling of the same id is a value) *)
 TCidParse == IsEv("cidparse") /\ r.out \in {"err", "other", "same"}
+             /\ (r.out # "err" => r.payload_len = 32)        \* a text accepted as an id spells exactly 32 bytes
 TKeygen == IsEv("keygen") /\ r.out = "ok" /\ AllTrue(r.facts)
 TNext == TNonce \/ TCrafted \/ TStateNonce \/ TNonceDecode \/ TTagSep \/ TCid \/ TCidParse \/ TKeygen
 TSpec == l = 1 /\ [][TNext]_l
